@@ -28,27 +28,35 @@ EXPLANATION = (
 NOT_DECIDED = "Full liveness of arbitrary loops (that the other readiness conditions eventually hold); several waiters per signal are covered only through the per-node bookkeeping."
 
 
-def run(ctx) -> None:
+def check_wait_freshness(ctx, rule: str) -> None:
+    """On re-execution a waited-for name is fresh iff its current version is strictly greater than the consumed one;
+    on first execution it must exist."""
     db, rep = ctx.db, ctx.rep
-    rep.rule("C17.R1", "freshness comparator: fresh iff current > consumed; first execution requires existence", floor=2)
-    rep.rule("C17.R2", "wait_for versions are recorded from the pre-step snapshot", floor=2)
-    rep.rule("C17.R3", "readiness includes the wait check; ready list passes the producer-first deferral", floor=3)
-    rep.rule("C17.R4", "every production of an emit output (and every first production) advances the version", floor=3)
-    rep.rule("C17.R5", "every completion of an emit-capable node returns its signals: each normal return of its executor comes from an emit-completing function", floor=7)
-
-    # ---- R1 ---------------------------------------------------------------------
     w = db.func("runners._shared.helpers._wait_for_satisfied")
     cur = cons = None
+    # the two operands are found by what they denote, through single-assignment locals: 'current' reads the state's
+    # version of the name, 'consumed' reads the version the last execution recorded for it
+    wdefs = {nm: ds[0].value for nm, ds in db.local_defs(w).items() if len(ds) == 1 and isinstance(ds[0], (ast.Assign, ast.AnnAssign)) and getattr(ds[0], "value", None) is not None}
+
+    def expand(e: ast.AST, depth: int = 0) -> str:
+        t_ = src(e)
+        if depth < 3:
+            for x in ast.walk(e):
+                if isinstance(x, ast.Name) and x.id in wdefs:
+                    t_ += " " + expand(wdefs[x.id], depth + 1)
+        return t_
+
+    tests = []
     for n in walk_local(w.node):
-        if isinstance(n, ast.Assign) and isinstance(n.targets[0], ast.Name):
-            t = src(n.value)
-            if "get_version" in t or ".versions" in t:
-                cur = n.targets[0].id
-            if "wait_for_versions" in t:
-                cons = n.targets[0].id
-    tests = [n for n in walk_local(w.node) if isinstance(n, ast.If) and cur and cons and cur in src(n.test) and cons in src(n.test)]
+        if isinstance(n, ast.If):
+            for cmp_ in [x for x in ast.walk(n.test) if isinstance(x, ast.Compare) and len(x.ops) == 1]:
+                ops_ = [cmp_.left, cmp_.comparators[0]]
+                kinds = ["cur" if ("get_version" in expand(o) or ".versions" in expand(o)) and "wait_for_versions" not in expand(o) else "cons" if "wait_for_versions" in expand(o) else None for o in ops_]
+                if set(kinds) == {"cur", "cons"}:
+                    cur, cons = src(ops_[kinds.index("cur")]), src(ops_[kinds.index("cons")])
+                    tests.append(n)
     if not tests:
-        rep.bad("C17.R1", f"{w.qname}:comparator", w.loc(), "comparison of current and consumed wait_for versions not found")
+        rep.bad(rule, f"{w.qname}:comparator", w.loc(), "comparison of current and consumed wait_for versions not found")
     else:
         t = tests[0]
         ret_false = any(isinstance(s, ast.Return) and isinstance(s.value, ast.Constant) and s.value.value is False for s in t.body)
@@ -57,12 +65,17 @@ def run(ctx) -> None:
             tab = ordering_table(t.test, cur, cons)
             fresh = {k: ((not v) if ret_false else v) for k, v in tab.items()} if (ret_false or ret_true) else None
             ok = fresh is not None and fresh["eq"] is False and fresh["gt"] is True
-            rep.add("C17.R1", f"{w.qname}:comparator", ok, f"{w.module.rel}:{t.lineno}", f"fresh iff current > consumed (eq->{fresh['eq']}, gt->{fresh['gt']})" if ok else f"freshness test '{src(t.test)}' gives eq->{fresh and fresh['eq']}, gt->{fresh and fresh['gt']} (expected eq->stale, gt->fresh): a waiter either re-runs without a new production or never re-runs")
+            rep.add(rule, f"{w.qname}:comparator", ok, f"{w.module.rel}:{t.lineno}", f"fresh iff current > consumed (eq->{fresh['eq']}, gt->{fresh['gt']})" if ok else f"freshness test '{src(t.test)}' gives eq->{fresh and fresh['eq']}, gt->{fresh and fresh['gt']} (expected eq->stale, gt->fresh): a waiter either re-runs without a new production or never re-runs")
         except NotComparable as e:
-            rep.bad("C17.R1", f"{w.qname}:comparator", f"{w.module.rel}:{t.lineno}", f"freshness test is not a pure version comparison ({e})")
+            rep.bad(rule, f"{w.qname}:comparator", f"{w.module.rel}:{t.lineno}", f"freshness test is not a pure version comparison ({e})")
         # comparison only on re-execution; existence always
         g = enclosing(t, (ast.If,))
         ok = g is not None and "is not None" in src(g.test)
+        if g is None and any(k in expand(ast.parse(cons, mode="eval").body) for k in ("else {}", "or {}", "else dict()")):
+            # unguarded form: with no earlier execution the consumed version defaults to 0, which no existing name has
+            # (first production always advances the version, C17.R4b) — the comparison is vacuous on first execution
+            rep.add(rule, f"{w.qname}:only-on-reexecution", True, w.loc(), "the comparison also runs on first execution, against the default 0 that no existing name has")
+            g = "skip"
         if ok:
             # 'has executed before' is the *only* condition of the freshness test: it holds for signals and
             # for value names alike (whatever the waited-for name currently holds)
@@ -75,10 +88,24 @@ def run(ctx) -> None:
                     exec_atoms[k_] = False
             if eval_bool(g.test, exec_atoms) is not True:
                 ok = False
-        rep.add("C17.R1", f"{w.qname}:only-on-reexecution", ok, w.loc(), "version comparison applies exactly when the node has executed before" if ok else "the version comparison is not applied exactly on re-execution (missing, or under an extra condition such as 'the name holds a signal'): a first run would compare against version 0, or a waiter on a value name re-runs without a new production")
+        if g != "skip":
+            rep.add(rule, f"{w.qname}:only-on-reexecution", ok, w.loc(), "version comparison applies exactly when the node has executed before" if ok else "the version comparison is not applied exactly on re-execution (missing, or under an extra condition such as 'the name holds a signal'): a first run would compare against version 0, or a waiter on a value name re-runs without a new production")
     ex = [n for n in walk_local(w.node) if isinstance(n, ast.If) and " not in " in src(n.test) and "values" in src(n.test) and any(isinstance(s, ast.Return) and isinstance(s.value, ast.Constant) and s.value.value is False for s in n.body)]
     in_loop = bool(ex) and enclosing(ex[0], (ast.For,)) is not None and "wait_for" in src(enclosing(ex[0], (ast.For,)).iter)
-    rep.add("C17.R1", f"{w.qname}:existence", in_loop, w.loc(), "every waited-for name must exist in the state before the node may start" if in_loop else "the existence check of waited-for names is missing (a waiter could start before any producer completed)")
+    rep.add(rule, f"{w.qname}:existence", in_loop, w.loc(), "every waited-for name must exist in the state before the node may start" if in_loop else "the existence check of waited-for names is missing (a waiter could start before any producer completed)")
+
+
+
+def run(ctx) -> None:
+    db, rep = ctx.db, ctx.rep
+    rep.rule("C17.R1", "freshness comparator: fresh iff current > consumed; first execution requires existence", floor=2)
+    rep.rule("C17.R2", "wait_for versions are recorded from the pre-step snapshot", floor=2)
+    rep.rule("C17.R3", "readiness includes the wait check; ready list passes the producer-first deferral", floor=3)
+    rep.rule("C17.R4", "every production of an emit output (and every first production) advances the version", floor=3)
+    rep.rule("C17.R5", "every completion of an emit-capable node returns its signals: each normal return of its executor comes from an emit-completing function", floor=7)
+
+    # ---- R1 ---------------------------------------------------------------------
+    check_wait_freshness(ctx, "C17.R1")
 
     # ---- R2 ---------------------------------------------------------------------
     from sa.effects import Effects
@@ -300,4 +327,6 @@ VARIANTS = [
     Variant("twin-bump-helper", TY, replace_once("        if is_new or value is _EMIT_SENTINEL:\n            self.versions[name] = self.versions.get(name, 0) + 1\n        else:", "        always = is_new or value is _EMIT_SENTINEL\n        if always:\n            self.versions[name] = self.versions.get(name, 0) + 1\n        else:"), set()),
     Variant("cache-key-without-emit-names", "src/hypergraph/runners/_shared/caching.py", replace_once(":{node.outputs!r}:", ":"), {"C17.R5"}),
     Variant("twin-cache-key-emit-names-separately", "src/hypergraph/runners/_shared/caching.py", replace_once(":{node.outputs!r}:", ":{node.outputs[len(node.data_outputs):]!r}:"), set()),
+    Variant("consumed-signal-counts-fresh", HP, replace_once("    last_exec = state.node_executions.get(node.name)\n\n    for name in node.wait_for:\n        if name not in state.values:\n            return False\n        # On re-execution, check freshness\n        if last_exec is not None:\n            current_version = state.get_version(name)\n            consumed_version = last_exec.wait_for_versions.get(name, 0)\n            if current_version <= consumed_version:\n                return False\n", "    last_exec = state.node_executions.get(node.name)\n    consumed = last_exec.wait_for_versions if last_exec is not None else {}\n\n    for name in node.wait_for:\n        if name not in state.values:\n            return False\n        if state.get_version(name) < consumed.get(name, 0):\n            return False\n"), {"C17.R1"}),
+    Variant("twin-freshness-unguarded-default-zero", HP, replace_once("    last_exec = state.node_executions.get(node.name)\n\n    for name in node.wait_for:\n        if name not in state.values:\n            return False\n        # On re-execution, check freshness\n        if last_exec is not None:\n            current_version = state.get_version(name)\n            consumed_version = last_exec.wait_for_versions.get(name, 0)\n            if current_version <= consumed_version:\n                return False\n", "    last_exec = state.node_executions.get(node.name)\n    consumed = last_exec.wait_for_versions if last_exec is not None else {}\n\n    for name in node.wait_for:\n        if name not in state.values:\n            return False\n        if state.get_version(name) <= consumed.get(name, 0):\n            return False\n"), set()),
 ]
